@@ -38,7 +38,7 @@ func signedType(t string) bool { return t == "p2pkh" || t == "p2wpkh" || t == "p
 func (e *episode) resubmit(raw []byte, first *chainkit.Result) *chainkit.Result {
 	for _, procs := range []int{1, 1, 4, 16} {
 		old := runtime.GOMAXPROCS(procs)
-		res := e.k.Submit(raw)
+		res := e.submit(raw)
 		runtime.GOMAXPROCS(old)
 		e.r.Hit(fmt.Sprintf("resubmit(gomaxprocs=%d):%s", procs, errClass(res.String())))
 		if res.OK() {
